@@ -425,6 +425,6 @@ def check(ctx):
     # the statistics read record fields: they must read them where the layout puts them
     import_rules(ctx, "c05", {"field-position"})
     # ... and the slot walk steps by the size stored in every slot, free ones included
-    import_rules(ctx, "c06", {"free-slot-field-position", "class-slot", "push-pop-inverse", "writer-arms"})
+    import_rules(ctx, "c06", {"free-slot-field-position", "class-slot", "push-pop-inverse", "writer-arms", "large-threshold"})
     # a statistics call that answers Err for a legitimate structure does not report it
     import_rules(ctx, "c08", {"refusal"})
